@@ -872,6 +872,13 @@ class ExecMixin:
             for j in range(i + 1, len(hint)):
                 for k in (1, -1, 2, -2, 4, -4, 8, -8, 16, -16):
                     cands.append(("lin2", hint[i], hint[j], k))
+        # ... and of three (items consumed = items kept + items rejected, in a hand-written partition loop)
+        if 3 <= len(hint) <= 7:
+            for i in range(len(hint)):
+                for j in range(len(hint)):
+                    for k in range(j + 1, len(hint)):
+                        if i != j and i != k:
+                            cands.append(("lin3", hint[i], hint[j], hint[k]))
         return cands
 
     def leaf_lin(self, st, cell, kp):
@@ -896,6 +903,12 @@ class ExecMixin:
         b = self.leaf_lin(st, *c[2])
         if b is None:
             return None
+        if kind == "lin3":
+            d = self.leaf_lin(st, *c[3])
+            ea, eb, ed = (self._entry.get((lid, c[i])) for i in (1, 2, 3))
+            if d is None or ea is None or eb is None or ed is None:
+                return None
+            return c_eq(a - b - d, ea - eb - ed)
         if kind == "lin2":
             ea = self._entry.get((lid, c[1]))
             eb = self._entry.get((lid, c[2]))
@@ -905,6 +918,8 @@ class ExecMixin:
         return c_le(a, b) if kind == "le" else c_le(b, a)
 
     def cand_str(self, c):
+        if c[0] == "lin3":
+            return "%s - %s - %s conserved" % (self.leaf_name(*c[1]), self.leaf_name(*c[2]), self.leaf_name(*c[3]))
         if c[0] == "lin2":
             return "%s %+d*%s conserved" % (self.leaf_name(*c[1]), c[3], self.leaf_name(*c[2]))
         if c[0] in ("ge0", "le0"):
